@@ -1166,3 +1166,157 @@ pub proof fn lemma_two_step_compose_unique<O, A>(sx: OpenHypergraph<O, A>, m: Op
     lemma_compose_iso_left(r1, r2, yt, o1, o2, phi)
 }
 ''')
+
+raw(r'''
+/// replacing the right operand by an isomorphic copy gives an isomorphic composite
+pub proof fn lemma_compose_iso_right<O, A>(f: OpenHypergraph<O, A>, g: OpenHypergraph<O, A>, g2: OpenHypergraph<O, A>, r: OpenHypergraph<O, A>, r2: OpenHypergraph<O, A>, phi: Seq<usize>) -> (psi: Seq<usize>)
+    requires f.wf(), g.wf(), g2.wf(), node_iso(g, g2, phi), is_pushout(f, g, r), is_pushout(f, g2, r2), f.t.table@.len() == g.s.table@.len(),
+        f.h.w@.len() + g.h.w@.len() <= usize::MAX,
+    ensures node_iso(r, r2, psi)
+{
+    let nf = f.h.w@.len() as int; let ng = g.h.w@.len() as int; let nn = nf + ng;
+    let (q, k) = choose|q: Seq<usize>, kk: int| is_coeq(q, kk, glue_left(f), glue_right(f, g), nn) && #[trigger] is_quotient_of_jux(f, g, r, q, kk);
+    let (q2, k2) = choose|q: Seq<usize>, kk: int| is_coeq(q, kk, glue_left(f), glue_right(f, g2), (nf + g2.h.w@.len()) as int) && #[trigger] is_quotient_of_jux(f, g2, r2, q, kk);
+    let rho = Seq::new(nn as nat, |a: int| if a < nf { a as usize } else { (nf + phi[a - nf]) as usize });
+    assert forall|a: int| 0 <= a < nn implies (#[trigger] rho[a]) < nn by { if a >= nf { assert(phi[a - nf] < ng); } }
+    assert forall|a1: int, a2: int| 0 <= a1 < nn && 0 <= a2 < nn && a1 != a2 implies rho[a1] != rho[a2] by {
+        if a1 >= nf { assert(phi[a1 - nf] < ng); } if a2 >= nf { assert(phi[a2 - nf] < ng); }
+    }
+    let s1 = glue_left(f); let t1 = glue_right(f, g); let t2 = glue_right(f, g2);
+    assert forall|j: int| 0 <= j < s1.len() implies 0 <= #[trigger] s1[j] < nn && 0 <= t1[j] < nn && s1[j] == rho[s1[j] as int] && t2[j] == rho[t1[j] as int] by {
+        assert(f.t.table@[j] < f.t.target && g.s.table@[j] < g.s.target);
+        assert(g2.s.table@[j] == phi[g.s.table@[j] as int]);
+    }
+    lemma_coeq_transport(q2, k2, s1, t2, nn, rho, s1, t1);
+    let hh = Seq::new(nn as nat, |a: int| q2[rho[a] as int]);
+    lemma_coeq_unique(q, k, hh, k2, s1, t1, nn);
+    if nn == 0 && k > 0 { assert(hit(q, 0, 0)); }
+    if nn == 0 && k2 > 0 { assert(hit(q2, 0, 0)); }
+    let psi = lemma_factor_iso(q, k, s1, t1, nn, hh, k2);
+    assert forall|c: int| 0 <= c < k implies r2.h.w@[(#[trigger] psi[c]) as int] == r.h.w@[c] by {
+        assert(hit(q, c, nn));
+        let a = choose|a: int| 0 <= a < nn && #[trigger] q[a] == c;
+        assert(psi[q[a] as int] == hh[a]);
+        assert(r.h.w@[q[a] as int] == jux_label(f, g, a));
+        assert(r2.h.w@[q2[rho[a] as int] as int] == jux_label(f, g2, rho[a] as int));
+        if a >= nf { assert(phi[a - nf] < ng); }
+    }
+    assert(r.h.x@ =~= r2.h.x@);
+    assert(r.h.s.sources.table@ =~= r2.h.s.sources.table@ && r.h.t.sources.table@ =~= r2.h.t.sources.table@);
+    assert forall|i: int| 0 <= i < r.h.s.values.table@.len() implies (#[trigger] r2.h.s.values.table@[i]) == psi[r.h.s.values.table@[i] as int] by {
+        if i < f.h.s.values.table@.len() { let v = f.h.s.values.table@[i] as int; assert(v < f.h.s.values.target); assert(psi[q[v] as int] == hh[v]); }
+        else { let i2 = i - f.h.s.values.table@.len(); let v = g.h.s.values.table@[i2] as int; assert(v < g.h.s.values.target); assert(g2.h.s.values.table@[i2] == phi[v]); assert(psi[q[nf + v] as int] == hh[nf + v]); }
+    }
+    assert forall|i: int| 0 <= i < r.h.t.values.table@.len() implies (#[trigger] r2.h.t.values.table@[i]) == psi[r.h.t.values.table@[i] as int] by {
+        if i < f.h.t.values.table@.len() { let v = f.h.t.values.table@[i] as int; assert(v < f.h.t.values.target); assert(psi[q[v] as int] == hh[v]); }
+        else { let i2 = i - f.h.t.values.table@.len(); let v = g.h.t.values.table@[i2] as int; assert(v < g.h.t.values.target); assert(g2.h.t.values.table@[i2] == phi[v]); assert(psi[q[nf + v] as int] == hh[nf + v]); }
+    }
+    assert forall|i: int| 0 <= i < r.s.table@.len() implies (#[trigger] r2.s.table@[i]) == psi[r.s.table@[i] as int] by {
+        let v = f.s.table@[i] as int; assert(v < f.s.target); assert(psi[q[v] as int] == hh[v]);
+    }
+    assert forall|i: int| 0 <= i < r.t.table@.len() implies (#[trigger] r2.t.table@[i]) == psi[r.t.table@[i] as int] by {
+        let v = g.t.table@[i] as int; assert(v < g.t.target); assert(g2.t.table@[i] == phi[v]); assert(psi[q[nf + v] as int] == hh[nf + v]);
+    }
+    psi
+}
+
+/// composition respects isomorphism in both operands at once
+pub proof fn lemma_compose_iso_both<O, A>(f: OpenHypergraph<O, A>, f2: OpenHypergraph<O, A>, g: OpenHypergraph<O, A>, g2: OpenHypergraph<O, A>, r: OpenHypergraph<O, A>, r2: OpenHypergraph<O, A>, al: Seq<usize>, phi: Seq<usize>) -> (psi: Seq<usize>)
+    requires f.wf(), f2.wf(), g.wf(), g2.wf(), node_iso(f, f2, al), node_iso(g, g2, phi), is_pushout(f, g, r), is_pushout(f2, g2, r2), f.t.table@.len() == g.s.table@.len(),
+        f.h.w@.len() + g.h.w@.len() <= usize::MAX,
+    ensures node_iso(r, r2, psi)
+{
+    let nf = f.h.w@.len() as int; let ng = g.h.w@.len() as int; let nn = nf + ng;
+    let (q, k) = choose|q: Seq<usize>, kk: int| is_coeq(q, kk, glue_left(f), glue_right(f, g), nn) && #[trigger] is_quotient_of_jux(f, g, r, q, kk);
+    let (q2, k2) = choose|q: Seq<usize>, kk: int| is_coeq(q, kk, glue_left(f2), glue_right(f2, g2), (f2.h.w@.len() + g2.h.w@.len()) as int) && #[trigger] is_quotient_of_jux(f2, g2, r2, q, kk);
+    let rho = Seq::new(nn as nat, |a: int| if a < nf { al[a] } else { (nf + phi[a - nf]) as usize });
+    assert forall|a: int| 0 <= a < nn implies (#[trigger] rho[a]) < nn by { if a >= nf { assert(phi[a - nf] < ng); } else { assert(al[a] < nf); } }
+    assert forall|a1: int, a2: int| 0 <= a1 < nn && 0 <= a2 < nn && a1 != a2 implies rho[a1] != rho[a2] by {
+        if a1 >= nf { assert(phi[a1 - nf] < ng); } else { assert(al[a1] < nf); } if a2 >= nf { assert(phi[a2 - nf] < ng); } else { assert(al[a2] < nf); }
+    }
+    let s1 = glue_left(f); let t1 = glue_right(f, g); let s2 = glue_left(f2); let t2 = glue_right(f2, g2);
+    assert forall|j: int| 0 <= j < s1.len() implies 0 <= #[trigger] s1[j] < nn && 0 <= t1[j] < nn && s2[j] == rho[s1[j] as int] && t2[j] == rho[t1[j] as int] by {
+        assert(f.t.table@[j] < f.t.target && g.s.table@[j] < g.s.target);
+        assert(g2.s.table@[j] == phi[g.s.table@[j] as int]);
+        assert(f2.t.table@[j] == al[f.t.table@[j] as int]);
+    }
+    lemma_coeq_transport(q2, k2, s2, t2, nn, rho, s1, t1);
+    let hh = Seq::new(nn as nat, |a: int| q2[rho[a] as int]);
+    lemma_coeq_unique(q, k, hh, k2, s1, t1, nn);
+    if nn == 0 && k > 0 { assert(hit(q, 0, 0)); }
+    if nn == 0 && k2 > 0 { assert(hit(q2, 0, 0)); }
+    let psi = lemma_factor_iso(q, k, s1, t1, nn, hh, k2);
+    assert forall|c: int| 0 <= c < k implies r2.h.w@[(#[trigger] psi[c]) as int] == r.h.w@[c] by {
+        assert(hit(q, c, nn));
+        let a = choose|a: int| 0 <= a < nn && #[trigger] q[a] == c;
+        assert(psi[q[a] as int] == hh[a]);
+        assert(r.h.w@[q[a] as int] == jux_label(f, g, a));
+        assert(r2.h.w@[q2[rho[a] as int] as int] == jux_label(f2, g2, rho[a] as int));
+        if a >= nf { assert(phi[a - nf] < ng); } else { assert(al[a] < nf); }
+    }
+    assert(r.h.x@ =~= r2.h.x@);
+    assert(r.h.s.sources.table@ =~= r2.h.s.sources.table@ && r.h.t.sources.table@ =~= r2.h.t.sources.table@);
+    assert forall|i: int| 0 <= i < r.h.s.values.table@.len() implies (#[trigger] r2.h.s.values.table@[i]) == psi[r.h.s.values.table@[i] as int] by {
+        if i < f.h.s.values.table@.len() { let v = f.h.s.values.table@[i] as int; assert(v < f.h.s.values.target); assert(f2.h.s.values.table@[i] == al[v]); assert(psi[q[v] as int] == hh[v]); }
+        else { let i2 = i - f.h.s.values.table@.len(); let v = g.h.s.values.table@[i2] as int; assert(v < g.h.s.values.target); assert(g2.h.s.values.table@[i2] == phi[v]); assert(psi[q[nf + v] as int] == hh[nf + v]); }
+    }
+    assert forall|i: int| 0 <= i < r.h.t.values.table@.len() implies (#[trigger] r2.h.t.values.table@[i]) == psi[r.h.t.values.table@[i] as int] by {
+        if i < f.h.t.values.table@.len() { let v = f.h.t.values.table@[i] as int; assert(v < f.h.t.values.target); assert(f2.h.t.values.table@[i] == al[v]); assert(psi[q[v] as int] == hh[v]); }
+        else { let i2 = i - f.h.t.values.table@.len(); let v = g.h.t.values.table@[i2] as int; assert(v < g.h.t.values.target); assert(g2.h.t.values.table@[i2] == phi[v]); assert(psi[q[nf + v] as int] == hh[nf + v]); }
+    }
+    assert forall|i: int| 0 <= i < r.s.table@.len() implies (#[trigger] r2.s.table@[i]) == psi[r.s.table@[i] as int] by {
+        let v = f.s.table@[i] as int; assert(v < f.s.target); assert(f2.s.table@[i] == al[v]); assert(psi[q[v] as int] == hh[v]);
+    }
+    assert forall|i: int| 0 <= i < r.t.table@.len() implies (#[trigger] r2.t.table@[i]) == psi[r.t.table@[i] as int] by {
+        let v = g.t.table@[i] as int; assert(v < g.t.target); assert(g2.t.table@[i] == phi[v]); assert(psi[q[nf + v] as int] == hh[nf + v]);
+    }
+    psi
+}
+
+/// the tensor of isomorphic copies is isomorphic to the tensor (by the sum of the two node bijections)
+pub proof fn lemma_tensor_iso<O, A>(f: OpenHypergraph<O, A>, f2: OpenHypergraph<O, A>, g: OpenHypergraph<O, A>, g2: OpenHypergraph<O, A>,
+                                    r: OpenHypergraph<O, A>, r2: OpenHypergraph<O, A>, phi: Seq<usize>, chi: Seq<usize>) -> (psi: Seq<usize>)
+    requires f.wf(), g.wf(), f2.wf(), g2.wf(), node_iso(f, f2, phi), node_iso(g, g2, chi), is_tensor(r, f, g), is_tensor(r2, f2, g2),
+        f.h.w@.len() + g.h.w@.len() <= usize::MAX,
+    ensures node_iso(r, r2, psi)
+{
+    let nf = f.h.w@.len() as int; let ng = g.h.w@.len() as int; let nn = nf + ng;
+    let psi = Seq::new(nn as nat, |a: int| if a < nf { phi[a] } else { (nf + chi[a - nf]) as usize });
+    assert forall|a: int| 0 <= a < nn implies (#[trigger] psi[a]) < nn by { if a < nf { assert(phi[a] < nf); } else { assert(chi[a - nf] < ng); } }
+    assert forall|a1: int, a2: int| 0 <= a1 < nn && 0 <= a2 < nn && a1 != a2 implies psi[a1] != psi[a2] by {
+        if a1 < nf { assert(phi[a1] < nf); } else { assert(chi[a1 - nf] < ng); }
+        if a2 < nf { assert(phi[a2] < nf); } else { assert(chi[a2 - nf] < ng); }
+    }
+    assert forall|v: int| 0 <= v < nn implies r2.h.w@[(#[trigger] psi[v]) as int] == r.h.w@[v] by {
+        if v < nf { assert(phi[v] < nf); assert(f2.h.w@[phi[v] as int] == f.h.w@[v]); } else { assert(chi[v - nf] < ng); assert(g2.h.w@[chi[v - nf] as int] == g.h.w@[v - nf]); }
+    }
+    assert(r.h.x@ =~= r2.h.x@);
+    assert(r.h.s.sources.table@ =~= r2.h.s.sources.table@ && r.h.t.sources.table@ =~= r2.h.t.sources.table@);
+    let lf = f.h.s.values.table@.len() as int; let mf = f.h.t.values.table@.len() as int;
+    assert(f.h.s.values.target == nf && f2.h.s.values.target == nf && f.h.t.values.target == nf && f2.h.t.values.target == nf);
+    assert forall|i: int| 0 <= i < r.h.s.values.table@.len() implies (#[trigger] r2.h.s.values.table@[i]) == psi[r.h.s.values.table@[i] as int] by {
+        if i < lf { let v = f.h.s.values.table@[i] as int; assert(v < f.h.s.values.target); assert(f2.h.s.values.table@[i] == phi[v]); }
+        else { let v = g.h.s.values.table@[i - lf] as int; assert(v < g.h.s.values.target); assert(g2.h.s.values.table@[i - lf] == chi[v]); }
+    }
+    assert forall|i: int| 0 <= i < r.h.t.values.table@.len() implies (#[trigger] r2.h.t.values.table@[i]) == psi[r.h.t.values.table@[i] as int] by {
+        if i < mf { let v = f.h.t.values.table@[i] as int; assert(v < f.h.t.values.target); assert(f2.h.t.values.table@[i] == phi[v]); }
+        else { let v = g.h.t.values.table@[i - mf] as int; assert(v < g.h.t.values.target); assert(g2.h.t.values.table@[i - mf] == chi[v]); }
+    }
+    assert forall|i: int| 0 <= i < r.s.table@.len() implies (#[trigger] r2.s.table@[i]) == psi[r.s.table@[i] as int] by {
+        if i < f.s.table@.len() { let v = f.s.table@[i] as int; assert(v < f.s.target); assert(f2.s.table@[i] == phi[v]); }
+        else { let v = g.s.table@[i - f.s.table@.len()] as int; assert(v < g.s.target); assert(g2.s.table@[i - f.s.table@.len()] == chi[v]); }
+    }
+    assert forall|i: int| 0 <= i < r.t.table@.len() implies (#[trigger] r2.t.table@[i]) == psi[r.t.table@[i] as int] by {
+        if i < f.t.table@.len() { let v = f.t.table@[i] as int; assert(v < f.t.target); assert(f2.t.table@[i] == phi[v]); }
+        else { let v = g.t.table@[i - f.t.table@.len()] as int; assert(v < g.t.target); assert(g2.t.table@[i - f.t.table@.len()] == chi[v]); }
+    }
+    psi
+}
+
+/// the dagger of an isomorphic copy is isomorphic to the dagger (same bijection)
+pub proof fn lemma_dagger_iso<O, A>(f: OpenHypergraph<O, A>, f2: OpenHypergraph<O, A>, d: OpenHypergraph<O, A>, d2: OpenHypergraph<O, A>, phi: Seq<usize>)
+    requires node_iso(f, f2, phi), is_dagger(d, f), is_dagger(d2, f2)
+    ensures node_iso(d, d2, phi)
+{
+}
+''')
